@@ -282,6 +282,52 @@ func validateWitnesses(spec *PropSpec, r *Run, max int, seed int) (validated int
 	for i := seed % step; i < len(ws) && len(pick) < max+len(have)*3; i += step {
 		pick = append(pick, i)
 	}
+	validatedLabel := map[string]bool{}
+	tried := map[int]bool{}
+	for round := 0; round < 4; round++ {
+		if round > 0 {
+			// labels still without a validated witness: try further witnesses carrying them (the first
+			// ones may have been unrealisable models of uninterpreted library functions)
+			pick = nil
+			per := map[string]int{}
+			for i, w := range ws {
+				if tried[i] {
+					continue
+				}
+				for _, c := range w.Covers {
+					if !validatedLabel[c] && c != "harness-end" && per[c] < 8*round {
+						per[c]++
+						pick = append(pick, i)
+						break
+					}
+				}
+			}
+			if len(pick) == 0 {
+				break
+			}
+		}
+		n, probs := r.validateRound(spec, ws, pick, tried, validatedLabel)
+		validated += n
+		problems = append(problems, probs...)
+		missing := false
+		for _, c := range r.spec.Covers {
+			if !validatedLabel[c] && r.covers[c] != nil {
+				missing = true
+			}
+		}
+		if !missing {
+			break
+		}
+	}
+	for _, c := range r.spec.Covers {
+		if !validatedLabel[c] && r.covers[c] != nil {
+			problems = append(problems, fmt.Sprintf("%s: translation validation: no witness of cover point %q agreed with the native run", r.harness, c))
+		}
+	}
+	return validated, problems
+}
+
+func (r *Run) validateRound(spec *PropSpec, ws []Witness, pick []int, tried map[int]bool, validatedLabel map[string]bool) (validated int, problems []string) {
 	var cases []nativeCase
 	idx := map[string]int{}
 	for _, i := range pick {
@@ -290,13 +336,13 @@ func validateWitnesses(spec *PropSpec, r *Run, max int, seed int) (validated int
 			continue
 		}
 		idx[id] = i
+		tried[i] = true
 		cases = append(cases, nativeCase{ID: id, Harness: r.harness, Draws: ws[i].Model, Choices: ws[i].Choices, Params: r.params})
 	}
 	res, out, err := runNative(spec, r.spec.Pkg, cases)
 	if err != nil {
 		return 0, []string{r.harness + ": witness validation could not run: " + err.Error() + "\n" + tail(out, 25)}
 	}
-	validatedLabel := map[string]bool{}
 	ids := make([]string, 0, len(idx))
 	for id := range idx {
 		ids = append(ids, id)
@@ -341,11 +387,6 @@ func validateWitnesses(spec *PropSpec, r *Run, max int, seed int) (validated int
 		validated++
 		for _, c := range nr.Covers {
 			validatedLabel[c] = true
-		}
-	}
-	for _, c := range r.spec.Covers {
-		if !validatedLabel[c] && r.covers[c] != nil {
-			problems = append(problems, fmt.Sprintf("%s: translation validation: no witness of cover point %q agreed with the native run", r.harness, c))
 		}
 	}
 	return validated, problems
